@@ -211,3 +211,68 @@ def run_scenario(scen, build_model, day_start=None, day_end=None, max_steps=1000
     if not keep_model:
         tr.model = None
     return tr
+
+
+# ---------------------------------------------------------------------------------------------
+# one libm for model and implementation (used only to classify disagreements as "ulp ties")
+class NpProxy:
+    """stands in for the `np` module attribute of aquacrop modules: scalar exp/log/log10/power go
+    through the C library (the libm Lean's `Float` uses); everything else is numpy itself"""
+
+    def __init__(self, real):
+        object.__setattr__(self, "_np", real)
+
+    def __getattr__(self, k):
+        return getattr(self._np, k)
+
+    def _scalar(self, f, g, x):
+        import math
+        if isinstance(x, np.ndarray) and x.ndim > 0:
+            return g(x)
+        try:
+            return np.float64(f(float(x)))
+        except OverflowError:
+            return np.float64(math.inf)
+        except (ValueError, TypeError):
+            with np.errstate(all="ignore"):
+                return g(x)
+
+    def exp(self, x):
+        import math
+        return self._scalar(math.exp, self._np.exp, x)
+
+    def log(self, x):
+        import math
+        return self._scalar(math.log, self._np.log, x)
+
+    def log10(self, x):
+        import math
+        return self._scalar(math.log10, self._np.log10, x)
+
+    def power(self, x, y):
+        import math
+        if isinstance(x, np.ndarray) and x.ndim > 0 or isinstance(y, np.ndarray) and getattr(y, "ndim", 0) > 0:
+            return self._np.power(x, y)
+        try:
+            return np.float64(math.pow(float(x), float(y)))
+        except (OverflowError, ValueError, TypeError):
+            with np.errstate(all="ignore"):
+                return self._np.power(x, y)
+
+
+class SharedLibm:
+    """context manager: aquacrop's solution/initialize/timestep modules see `NpProxy` as `np`"""
+
+    def __enter__(self):
+        self._patched = []
+        for m in _all_modules():
+            real = vars(m).get("np")
+            if real is np:
+                self._patched.append(m)
+                m.np = NpProxy(np)
+        return self
+
+    def __exit__(self, *exc):
+        for m in self._patched:
+            m.np = np
+        return False
